@@ -483,7 +483,10 @@ def gen_cases(fmt, backend, tier, seed):
                 else:
                     rs = costs_a
                 for r in rs:
-                    for s in (base_salts[: 2 if ax["salt"] else 1] if c == c0 and not (block42 and not quick) else base_salts[:1]):
+                    salts = base_salts[:1]
+                    if c == c0 and ax["salt"] and (quick or not block42 or r - 1000 in RESIDUES_QUICK):
+                        salts = base_salts[:2]  # second (minimum-size) salt on the first content class
+                    for s in salts:
                         add("A", pw(c, n), c, settings_dict(s, r), ctx0, nearmiss=(c == c0 and r == rs[0]), n=n)
     elif bud in ("slow", "wrapper"):
         for n in lengths:
@@ -521,7 +524,8 @@ def gen_cases(fmt, backend, tier, seed):
             for combo in combos:
                 for cx in ctx_full:
                     for c, n in d_pw:
-                        add("D", pw(c, n), c, settings_dict(base_salts[0], costs_a[0], ident, combo), cx, n=n)
+                        for r in (costs_a[:2] if others else costs_a[:1]):  # variants also meet a second cost
+                            add("D", pw(c, n), c, settings_dict(base_salts[0], r, ident, combo), cx, n=n)
     if ax["ctx"]:
         # users/realms crossed with every length (the padding / append rules are length dependent)
         for cx in ctx_full:
